@@ -11,33 +11,62 @@ import (
 	"fmt"
 	"os"
 	"reflect"
+	"runtime"
 	"strings"
+	"sync"
 	"time"
 	"unsafe"
 )
 
+// vstate is the replay cursor. There is one global cursor, or (concurrent replay of C20 counterexamples under the
+// race detector) one cursor per goroutine, registered before the goroutines are released.
+type vstate struct {
+	vec   []int64
+	kinds string
+	pos   int
+}
+
 var (
-	vvec    []int64
-	vkinds  string
-	vpos    int
+	vglobal vstate
+	vstates map[uint64]*vstate // read-only while the goroutines run
 	vtier   string
-	vtrace  []string
-	vreached = map[string]bool{}
 )
+
+func vgoid() uint64 {
+	var buf [64]byte
+	n := runtime.Stack(buf[:], false)
+	// "goroutine 123 [running]:..."
+	var id uint64
+	for _, c := range buf[10:n] {
+		if c < '0' || c > '9' {
+			break
+		}
+		id = id*10 + uint64(c-'0')
+	}
+	return id
+}
+
+func vcur() *vstate {
+	if vstates == nil {
+		return &vglobal
+	}
+	return vstates[vgoid()]
+}
 
 type vViolation struct{ label string }
 type vAssumeFailed struct{}
 type vVectorError struct{ msg string }
 
 func vnext(kind byte) int64 {
-	if vpos >= len(vvec) {
-		panic(vVectorError{fmt.Sprintf("input vector exhausted at position %d (want %c)", vpos, kind)})
+	st := vcur()
+	if st.pos >= len(st.vec) {
+		panic(vVectorError{fmt.Sprintf("input vector exhausted at position %d (want %c)", st.pos, kind)})
 	}
-	if vpos < len(vkinds) && vkinds[vpos] != kind {
-		panic(vVectorError{fmt.Sprintf("input vector kind mismatch at %d: have %c want %c", vpos, vkinds[vpos], kind)})
+	if st.pos < len(st.kinds) && st.kinds[st.pos] != kind {
+		panic(vVectorError{fmt.Sprintf("input vector kind mismatch at %d: have %c want %c", st.pos, st.kinds[st.pos], kind)})
 	}
-	v := vvec[vpos]
-	vpos++
+	v := st.vec[st.pos]
+	st.pos++
 	return v
 }
 
@@ -82,7 +111,7 @@ func vassert(c bool, label string) {
 		panic(vViolation{label})
 	}
 }
-func vreach(label string) { vreached[label] = true }
+func vreach(label string) {}
 func vbound(name string, quick, thorough int) int {
 	if vtier == "" {
 		vtier = os.Getenv("VERIF_TIER")
@@ -134,8 +163,37 @@ func vreplayRun(t vtestingT, path string, h func()) {
 	if strings.Contains(rf.Label, "map-order") {
 		attempts = 1000
 	}
+	if strings.Contains(rf.Label, "package-level state") {
+		// the engine saw a store into shared package state: confirm natively by running the same call on several
+		// goroutines under the race detector (the test binary is built with -race; a report fails the test)
+		const g = 4
+		states := map[uint64]*vstate{}
+		var mu sync.Mutex
+		var ready, done sync.WaitGroup
+		start := make(chan struct{})
+		ready.Add(g)
+		done.Add(g)
+		for i := 0; i < g; i++ {
+			go func() {
+				defer done.Done()
+				mu.Lock()
+				states[vgoid()] = &vstate{vec: rf.Vector, kinds: rf.Kinds}
+				mu.Unlock()
+				ready.Done()
+				<-start
+				vrunOnce(h)
+			}()
+		}
+		ready.Wait()
+		vstates = states
+		close(start)
+		done.Wait()
+		vstates = nil
+		fmt.Printf("VERIF-CONCURRENT-RUN-DONE\n")
+		return
+	}
 	for i := 0; i < attempts; i++ {
-		vvec, vkinds, vpos = rf.Vector, rf.Kinds, 0
+		vglobal = vstate{vec: rf.Vector, kinds: rf.Kinds}
 		res := vrunOnce(h)
 		if res == "" {
 			continue
@@ -189,3 +247,6 @@ func vstubOpen(name string) error {
 	return nil
 }
 func vstubCreate(name string) error { return vstubOpen(name) }
+
+// vdeepequal: structural equality following pointers (engine: own heap walk returning a formula; native: reflect).
+func vdeepequal(a, b interface{}) bool { return reflect.DeepEqual(a, b) }
